@@ -1,6 +1,6 @@
 SPECIFICATION MCSpec
 CONSTANTS
-  TimeBound = 7
+  TimeBound = 6
   MCMaxP = 3
   MCHour = 1
   MCRetry = 2
